@@ -2,6 +2,7 @@ package bsim
 
 import (
 	"fmt"
+	"path/filepath"
 	"regexp"
 	"sort"
 	"strings"
@@ -258,6 +259,21 @@ func CheckC08(t Target, src *choice.Src, st *Stats) *Violation {
 			}
 			return &Violation{Property: "C08", Sig: sig, Detail: detail, Worlds: []*World{w, t2}, Mode: "twin-all",
 				Expect: []string{digest(base), digest(r2)}, Choices: genDraws}
+		}
+	}
+	// run-from twin: the same files, the command started from another directory with every path
+	// respelled; the report echoes the spellings, so only exit status and the -o file are compared
+	if !w.AbsInputs && !filepath.IsAbs(w.Out) {
+		rw := w.Clone()
+		rw.RunFrom = choice.Pick(src, "twin.runfrom", []string{"elsewhere", "a/b"})
+		rr := Exec(t, rw)
+		if st != nil {
+			st.note(rw, rr)
+			st.Dims["run-from-other-directory"]++
+		}
+		if d := diff(base, rr, true); len(d) > 0 {
+			return &Violation{Property: "C08", Sig: "run-from:" + strings.Join(d, "+"), Detail: "starting the command from another directory (same files, paths respelled) changed " + strings.Join(d, "+") + "\n" + explain(base, rr),
+				Worlds: []*World{w, rw}, Mode: "twin-out", Expect: []string{digest(base), digest(rr)}, Choices: genDraws}
 		}
 	}
 	// previous-output twin: -o already holds what the same configuration generated under another
